@@ -14,6 +14,24 @@ CLAIMED = {
  "C10": dict(level="exploration", tech="deterministic simulation: hasher pool with client cancellation at arbitrary operations (crash points), reset and reuse, lockstep fresh twin as reference model; shrinking and exact replay",
    text="Seeded search over pool histories: clients run random prefixes (offsets, any adapter, finalize variants, clones) and are cancelled at an arbitrary operation; after reset() the next client's operations run in lockstep on a freshly constructed twin and must agree in count and every result; no in-domain operation may panic. Found and fixed: reset() kept a hazmat input offset.",
    note="Trusted: fresh-twin comparison + crate one-shot functions; SpecModel for non-root chaining values.", ref="DESIGN.md §3 C10"),
+ "C04": dict(level="exploration", tech="deterministic simulation: exact replay of the same seeded plans under every forced SIMD level (detect() hook) and every build flavour; per-operation result digests must coincide; shrinking and exact replay",
+   text="The C02/C03/C08/C11 plan families are re-executed, same seeds, once per SIMD level (Portable, SSE2, SSE4.1, AVX2, AVX-512, real detection) and the per-operation digests compared; a mismatch is shrunk like any violation and the replay names the two configurations. Sampling over plans; complete over the levels this CPU and build can run.",
+   note="Trusted: hook H1 selects what stock detection would select (cross-checked against no_* feature builds in the thorough tier). MSVC .asm, NEON, wasm32 kernels are outside the claim.", ref="DESIGN.md §3 C04"),
+ "C08": dict(level="exploration", tech="deterministic simulation: scripted Join hook decides left-first/right-first/concurrent per recursive split; concurrent halves are child tasks interleaved by a seeded baton scheduler at every kernel dispatch; real rayon pools as a second engine; shrinking and exact replay",
+   text="Seeded search over split-order assignments and interleavings of update_with_join (the generic function update_rayon instantiates) plus real rayon pools of width 1,2,4,16 and update_mmap_rayon; state after the call must equal what serial update leaves (count, finalize, XOF, continuation).",
+   note="Interleaving granularity is the kernel dispatch (hook H2). The C entry point blake3_hasher_update_tbb is covered by the C06 check's TBB-seam family.", ref="DESIGN.md §3 C08"),
+ "C09": dict(level="exploration", tech="deterministic simulation: simulated cluster of subtree workers and a coordinator over an in-memory transport with worker crash/restart, duplicated and reordered chaining-value messages; giant virtual offsets; SpecModel oracle; shrinking and exact replay",
+   text="Seeded search over tree decompositions, worker assignment, per-shard update fragmentation and injected faults (crash mid-shard and recomputation, duplicate/reordered delivery); every shard CV and merge is compared with SpecModel and the root with the crate's one-shot function; the length helpers are compared with their closed forms on walks from virtual lengths up to 2^64-1. Found and fixed: left_subtree_len(u64::MAX) overflowed.",
+   note="Trusted: SpecModel; real bytes are hashed only in windows <= 64 KiB at giant offsets.", ref="DESIGN.md §3 C09"),
+ "C16": dict(level="exploration", tech="deterministic simulation: the API surface of every step of a seeded history is a knob (RustCrypto traits vs inherent), lockstep twin after resetting variants; legacy guts API as cluster workers; shrinking and exact replay",
+   text="Seeded search over histories issued through Update/Digest/Mac/FixedOutput(Reset)/ExtendableOutput(Reset)/XofReader/Reset/KeyInit with the inherent-API semantics as oracle (including the state left behind by *_reset, observed through the continuation and a fresh twin); guts::ChunkState/parent_cv trees compared node by node with SpecModel.",
+   note="Trusted: inherent API semantics (decided by C02/C03/C10), SpecModel.", ref="DESIGN.md §3 C16"),
+ "C17": dict(level="exploration", tech="deterministic simulation with self-composition: the same seeded plan is replayed exactly with all secrets swapped; Debug text and post-zeroize memory snapshots at plan-chosen probe instants must not depend on the secrets; shrinking and exact replay",
+   text="Seeded search over histories with probe instants (format Debug / snapshot-zeroize-snapshot of the live object); in-run oracle (no secret word rendered, no 8 non-zero bytes survive) plus self-composition (byte-identical text, no 8-byte window of memory differing between the two secret assignments).",
+   note="Relies on padding < 8 bytes in these types and on reading object memory through raw pointers in a release build.", ref="DESIGN.md §3 C17"),
+ "C18": dict(level="exploration", tech="deterministic simulation: 2-6 simulated caller tasks on disjoint instances, each at its own forced SIMD level, interleaved by a seeded baton scheduler at every kernel dispatch/detect/reader call; Solo oracle (each task re-run alone); one process per search shard; shrinking and exact replay",
+   text="Seeded search over interleavings of complete operation sequences on disjoint Hasher/OutputReader instances and one-shot calls; every operation must return the bytes it returns when its task runs alone. The Rust detection cache cannot be put under the scheduler (stated in evidence).",
+   note="Interleaving granularity is the hook sites; C instances join in the C06/C18-C families.", ref="DESIGN.md §3 C18"),
 }
 NA = {
  "C01": "one-shot hash/keyed_hash/derive_key are pure functions of their arguments: no history, schedule, clock or fault exists for a simulator to control; input search alone would be fuzzing, a different technique family",
